@@ -172,3 +172,31 @@ def tree_fingerprint():
             with open(f, "rb") as fh:
                 h.update(fh.read())
     return h.hexdigest()[:16]
+
+
+CLI_WRAPS = ["fopen", "abort", "__assert_fail", "exit"]
+
+
+def build_cli():
+    """CLI simulator: bin/main.c (as eav_cli_main) + bin/utf8_decode.c + library objects WITHOUT
+    src/utf8_decode.c - the shipped link resolves the library's utf8_decode_* calls to the
+    executable's own file-scope-static decoder, so this reproduces what `eav` really runs."""
+    d = os.path.join(BUILD, "cli")
+    if os.path.isdir(d):
+        shutil.rmtree(d)
+    objs = compile_lib(d, "idn2", ASAN, [], with_lib_decoder=False)
+    inc = ["-I" + os.path.join(REPO, "include"), "-I" + REPO, "-DHAVE_LIBIDN2"]
+    cpp = ["-D_DEFAULT_SOURCE", "-D_XOPEN_SOURCE=700", "-D_SVID_SOURCE", "-D__EXTENSIONS__"]
+    jobs = []
+    main_o = os.path.join(d, "bin_main.o")
+    jobs.append([CC, "-std=c99", "-Wall", "-Wextra"] + cpp + inc + ASAN + ["-Dmain=eav_cli_main", "-c", os.path.join(REPO, "bin/main.c"), "-o", main_o])
+    dec_o = os.path.join(d, "bin_utf8_decode.o")
+    jobs.append([CC, "-std=c99", "-Wall"] + cpp + inc + ASAN + ["-c", os.path.join(REPO, "bin/utf8_decode.c"), "-o", dec_o])
+    sim_o = os.path.join(d, "cli_sim.o")
+    jobs.append([CXX, "-std=c++17", "-Wall"] + ASAN + inc + ["-c", os.path.join(VERIF, "sim/cli/cli_sim.cpp"), "-o", sim_o])
+    compile_many(jobs, {2})
+    exe = os.path.join(d, "cli")
+    run([CXX, "-fsanitize=address,undefined", "-o", exe, sim_o, main_o, dec_o] + objs + ["-lidn2"]
+        + ["-Wl," + ",".join("--wrap=" + w for w in CLI_WRAPS)])
+    ext = undefined_externals([main_o, dec_o])
+    return exe, ext
